@@ -22,7 +22,9 @@ import (
 
 var (
 	appName = istructs.AppQName_test1_app1
-	qnDoc   = appdef.NewQName("verif", "Doc")
+	qnOrder = appdef.NewQName("verif", "Order")
+	qnLine  = appdef.NewQName("verif", "Line")
+	qnCmd   = appdef.NewQName("verif", "MakeOrder")
 )
 
 const (
@@ -30,15 +32,70 @@ const (
 	fldPad   = "pad"
 )
 
+// kindDef: one kind of record the code could tell apart when it decides between insert and put.
+// Code is the record kind of the Coq model (it_kind).
+type kindDef struct {
+	Name      string
+	Code      uint64
+	Singleton bool
+	Parent    string // nested records: type of the parent document
+	Container string
+}
+
+var recKinds = []kindDef{
+	{Name: "Doc", Code: 1},
+	{Name: "Settings", Code: 2, Singleton: true},
+	{Name: "WDoc", Code: 3},
+	{Name: "WState", Code: 4, Singleton: true},
+	{Name: "Item", Code: 5, Parent: "Doc", Container: "items"},
+	{Name: "WItem", Code: 6, Parent: "WDoc", Container: "witems"},
+}
+
+func kindOf(name string) *kindDef {
+	if name == "" {
+		name = "Doc"
+	}
+	for i := range recKinds {
+		if recKinds[i].Name == name {
+			return &recKinds[i]
+		}
+	}
+	return nil
+}
+
+func qn(name string) appdef.QName { return appdef.NewQName("verif", name) }
+
 func buildAppDef() appdef.IAppDefBuilder {
 	adb := builder.New()
 	adb.AddPackage("verif", "verif.test/verif")
 	ws := adb.AddWorkspace(appdef.NewQName("verif", "workspace"))
 	ws.AddCDoc(appdef.NewQName("verif", "WSDesc"))
 	ws.SetDescriptor(appdef.NewQName("verif", "WSDesc"))
-	d := ws.AddCDoc(qnDoc)
-	d.AddField(fldStamp, appdef.DataKind_int64, false)
-	d.AddField(fldPad, appdef.DataKind_string, false)
+	fields := func(f appdef.IFieldsBuilder) {
+		f.AddField(fldStamp, appdef.DataKind_int64, false)
+		f.AddField(fldPad, appdef.DataKind_string, false)
+	}
+	doc := ws.AddCDoc(qn("Doc"))
+	fields(doc)
+	doc.AddContainer("items", qn("Item"), 0, appdef.Occurs_Unbounded)
+	set := ws.AddCDoc(qn("Settings"))
+	set.SetSingleton()
+	fields(set)
+	wdoc := ws.AddWDoc(qn("WDoc"))
+	fields(wdoc)
+	wdoc.AddContainer("witems", qn("WItem"), 0, appdef.Occurs_Unbounded)
+	wst := ws.AddWDoc(qn("WState"))
+	wst.SetSingleton()
+	fields(wst)
+	fields(ws.AddCRecord(qn("Item")))
+	fields(ws.AddWRecord(qn("WItem")))
+	// a command whose argument is an operation document with a nested operation record: these live in
+	// the logs only and never reach putRecordsBatch
+	order := ws.AddODoc(qnOrder)
+	fields(order)
+	order.AddContainer("lines", qnLine, 0, appdef.Occurs_Unbounded)
+	fields(ws.AddORecord(qnLine))
+	ws.AddCommand(qnCmd).SetParam(qnOrder)
 	return adb
 }
 
@@ -107,6 +164,7 @@ func (r *rig) restart() error {
 	cfgs := make(istructsmem.AppConfigsType, 1)
 	cfg := cfgs.AddBuiltInAppConfig(appName, buildAppDef())
 	cfg.SetNumAppWorkspaces(istructs.DefaultNumAppWorkspaces)
+	cfg.Resources.Add(istructsmem.NewCommandFunction(qnCmd, istructsmem.NullCommandExec))
 	p := istructsmem.Provide(cfgs, payloads.ProvideIAppTokensFactory(itokensjwt.TestTokensJWT()),
 		&fixedProvider{st: r.top}, isequencer.SequencesTrustLevel(r.trust), nil)
 	app, err := p.BuiltIn(appName)
@@ -193,21 +251,21 @@ func (r *rig) apiRecord(ws, id uint64) (bool, int64, error) {
 	if rec.QName() == appdef.NullQName {
 		return false, 0, nil
 	}
-	if rec.QName() != qnDoc {
+	if kindOf(rec.QName().Entity()) == nil || rec.QName().Pkg() != "verif" {
 		return false, 0, fmt.Errorf("record %d has unexpected type %v", id, rec.QName())
 	}
 	return true, rec.AsInt64(fldStamp), nil
 }
 
-// scriptedIDs hands out the storage IDs the scenario prescribes for the raw IDs 1..n
-type scriptedIDs struct{ ids []uint64 }
+// scriptedIDs hands out the storage IDs the scenario prescribes for the raw IDs of an event
+type scriptedIDs struct{ ids map[uint64]uint64 }
 
 func (g *scriptedIDs) NextID(raw istructs.RecordID) (istructs.RecordID, error) {
-	i := int(raw) - 1
-	if i < 0 || i >= len(g.ids) {
+	id, ok := g.ids[uint64(raw)]
+	if !ok {
 		return 0, fmt.Errorf("no scripted id for raw id %d", raw)
 	}
-	return istructs.RecordID(g.ids[i]), nil
+	return istructs.RecordID(id), nil
 }
 
 func (g *scriptedIDs) UpdateOnSync(istructs.RecordID) {}
